@@ -260,6 +260,7 @@ type gstate struct {
 	live   []uint64    // machine ids believed alive
 	st     h.Stats
 	nextAt uint64 // bump pointer for blobs in page 16
+	loops  bool   // some program of this history can run for ever: no astronomically large gas then
 }
 
 func (g *gstate) emit(f string, a ...interface{}) { g.ops = append(g.ops, fmt.Sprintf(f, a...)) }
@@ -332,6 +333,9 @@ func (g *gstate) opMachine() {
 	r := g.r
 	p := randProg(r)
 	g.st.Inc("prog-" + p.kind)
+	if p.kind == "loop" || p.kind == "jumptable" {
+		g.loops = true
+	}
 	var at uint64
 	if r.Chance(1, 10) {
 		at = g.outerAddr(uint64(len(p.blob)), false)
@@ -455,7 +459,10 @@ func (g *gstate) opInvoke() {
 	case 1:
 		gas = uint64(1 + r.Intn(3))
 	case 2:
-		gas = []uint64{1<<63 - 1, 1 << 63, 1<<63 + 5, ^uint64(0), 1 << 40}[r.Intn(5)]
+		gas = []uint64{1 << 63, 1<<63 + 5, ^uint64(0), 1<<63 - 1, 1 << 40}[r.Intn(5)]
+		if g.loops && gas < 1<<63 {
+			gas = 1<<63 + gas
+		}
 		g.st.Inc("invoke-gas-huge")
 	default:
 		gas = uint64(5 + r.Intn(200))
